@@ -26,6 +26,7 @@ static std::vector<int> split_choices(const std::string& s) {
 }
 
 static void reset_for(const Harness& h) {
+  bodies::apply_env(h);
   cctz::time_zone::Impl::ClearTimeZoneMapTestOnly();
   bodies::world().reset_exec(h.threads.size());
   for (auto& n : h.preload) {
@@ -106,6 +107,7 @@ static RunOut run_once_cold(const Harness& h, const std::vector<int>& prefix, un
       const std::vector<bodies::FactoryEvent> saved_flog = bodies::world().flog;  // factory log of the concurrent run
       const std::map<std::string, int> saved_calls = bodies::world().fcalls;
       std::vector<Obs> seq(h.threads.size());
+      bodies::apply_env(h);
       cctz::time_zone::Impl::ClearTimeZoneMapTestOnly();
       bodies::world().reset_exec(h.threads.size());
       for (size_t t = 0; t < h.threads.size(); ++t) bodies::run_ops(h.threads[t], &seq[t]);
@@ -334,6 +336,31 @@ int main(int argc, char** argv) {
     bool co = what.compare(sp + 1, 6, "coarse") == 0;
     return {"--harness", what.substr(0, sp), "--coarse", co ? "1" : "0", "--choices", what.substr(lb + 1, rb - lb - 1)};
   });
+  // one long single-threaded history ("followed by arbitrary repeat loads" cannot be reached by short schedules if a
+  // cache is bounded or evicts): 1500 distinct failing names + the served ones + UTC / fixed names, each loaded once
+  // and then twice more in both orders; the factory log must show at most one invocation per name, on the caller.
+  if (only.empty() && g_prop == "C20") {
+    bodies::Harness hl{"HL", "long single-threaded history", {{}}, {}, false};
+    bodies::apply_env(hl);
+    cctz::time_zone::Impl::ClearTimeZoneMapTestOnly();
+    bodies::World& w = bodies::world();
+    w.reset_exec(1);
+    std::vector<std::string> names = {"A", "B", "R", "A2", "BAD", "X", "UTC", "UTC0", "Fixed/UTC+01:00:00", "Fixed/UTC+25:00:00", "file:B"};
+    for (int i = 0; i < 1500; ++i) names.push_back("Absent/" + std::to_string(i));
+    for (int pass = 0; pass < 3; ++pass)
+      for (size_t k = 0; k < names.size(); ++k) {
+        const std::string& n = names[pass == 2 ? names.size() - 1 - k : k];
+        w.cur_load.back() = n;
+        w.cur_thread.back() = pthread_self();
+        cctz::time_zone tz;
+        cctz::load_time_zone(n, &tz);
+        w.cur_load.back() = "";
+        total.count("evaluations");
+      }
+    Verdict v = bodies::judge(hl, {}, {}, false);
+    total.cls("C13:HL:long-history");
+    if (!v.c20.empty()) total.violation("C20:HL:" + std::string(v.c20[0].find("times for the one name") != std::string::npos ? "factory-twice" : "other"), "long history (" + std::to_string(names.size()) + " names, each loaded three times, single thread): " + v.c20[0], {});
+  }
   // evidence-level figures
   total.counters["traces_validated_against_impl"] = total.counters["evaluations"];
   // distinct outcomes per job (classes named outcome:<tag>:<hash>)
